@@ -576,6 +576,10 @@ func (vt *Model) vpa(ps int) {
 	if vt.cursor.row > row(vt.height()-1) {
 		vt.cursor.row = row(vt.height() - 1)
 	}
+	// absolute positioning cancels a pending wrap
+	if vt.cursor.col > vt.margin.right {
+		vt.cursor.col = vt.margin.right
+	}
 }
 
 // Line Position Relative (VPR) CSI Ps e
